@@ -2,6 +2,7 @@ package level
 
 import (
 	"io"
+	"math/bits"
 	"strconv"
 
 	"github.com/Tnze/go-mc/level/biome"
@@ -78,6 +79,12 @@ func NewBiomesPaletteContainer(length int, defaultValue BiomesState) *PaletteCon
 func NewBiomesPaletteContainerWithData(length int, data []uint64, pat []BiomesState) *PaletteContainer[BiomesState] {
 	var p palette[BiomesState]
 	n := calcBitsPerValue(length, len(data))
+	// The width cannot always be inferred from the number of longs alone
+	// (64 entries in 4 longs are 3-bit as well as 4-bit data). Like vanilla,
+	// let the palette size decide whenever it is consistent with the data.
+	if pb := bits.Len(uint(len(pat) - 1)); len(pat) > 1 && pb != n && calcBitStorageSize(pb, length) == len(data) {
+		n = pb
+	}
 	switch n {
 	case 0:
 		p = &singleValuePalette[BiomesState]{pat[0]}
